@@ -1,0 +1,86 @@
+//go:build verif
+
+// Contracts for govc (see /verif/DESIGN.md). This file contains only
+// comments; it is compiled only under the `verif` build tag.
+
+package ecmascript
+
+// ---- assumed contracts of goja and the standard library (trusted base) ----
+
+// A new runtime shares no mutable state with any other runtime.
+//@ extern github.com/dop251/goja.New() returns (o)
+//@   modifies nothing
+//@   ensures o != nil && fresh(o)
+
+//@ extern (*github.com/dop251/goja.Runtime).Set(o, name, value) returns (err)
+//@   modifies o
+
+//@ extern (*github.com/dop251/goja.Runtime).Interrupt(o, v)
+//@   modifies o
+
+//@ extern (*github.com/dop251/goja.Runtime).ToValue(o, v) returns (r)
+//@   modifies nothing
+
+//@ extern github.com/dop251/goja.Compile(name, src, strict) returns (p, err)
+//@   modifies nothing
+//@   ensures err == nil ==> p != nil
+
+//@ extern context.WithCancel(parent) returns (ctx, cancel)
+//@   modifies nothing
+//@   ensures cancel != nil && ctx != nil
+
+// Export hands back either a value created by the runtime or one of the Go
+// values that were exposed to it - all of which were allocated after `mark`
+// (the exposure obligations of Exec below make sure of that).
+//@ iface github.com/dop251/goja.Value.Export(recv) returns (r)
+//@   logical mark ref
+//@   modifies nothing
+//@   ensures ref(r) == nil || ref(r) >= mark
+
+//@ sig context.CancelFunc()
+//@   modifies nothing
+
+// RunProgram (this package, has a deferred recover): never panics; the script
+// may call any closure stored in the environment any number of times and may
+// change any object created since `mark` (everything exposed to it is), but
+// nothing older.
+//@ func RunProgram returns v, err
+//@   trusted
+//@   logical mark ref
+//@   modifies since(mark)
+//@   ensures err == nil ==> v != nil
+
+//@ globalinv Interrupted: Interrupted != nil
+
+// ---- the interpreter ----
+
+//@ func (*Interpreter).Compile returns obj, err
+//@   safety C07
+//@   modifies[C10,C12] nothing
+
+// The `out` closure of Exec: appends one canonicalised message to the execution.
+//@ func (*Interpreter).Exec$1 returns r
+//@   safety C07
+//@   recovered
+//@   requires exe != nil && *exe != nil && (*exe).Events != nil
+//@   modifies (*exe).Events, (*exe).Events.Emitted
+
+// The watcher goroutine of Exec: touches only the runtime.
+//@ func (*Interpreter).Exec$8
+//@   trusted
+//@   modifies *o
+
+//@ func (*Interpreter).Exec returns exe, err
+//@   safety C07
+//@   let mark = allocmark()
+//@   calls cancel as sig:context.CancelFunc
+//@   requires i != nil
+//@   modifies[C06,C10,C12] nothing
+//@   writes[C10,C12] nothing
+//@   argfrom[C10,C12] RunProgram#0 goja.New
+//@   across RunProgram: exe != nil && exe.Events != nil && exe.Events.Traces != nil && fresh(exe) && fresh(exe.Events)
+//@   onwrite[C10] env: ref(value) == nil || ref(value) >= mark || isfunc(value) || key == "ctx"
+//@   ensures[C07] total: exe != nil || err != nil
+//@   ensures[C07] wf: exe != nil ==> exe.Events != nil && exe.Events.Traces != nil && fresh(exe) && fresh(exe.Events)
+//@   ensures[C08] atomic: err != nil ==> exe == nil || len(exe.Emitted) == 0
+//@   ensures[C06,C10] noalias: exe != nil ==> exe.Bs == nil || fresh(exe.Bs)
